@@ -116,14 +116,17 @@ func writeFileWithBackup(path string, target []byte) (err error) {
 	}
 	tmpfile := f.Name()
 	_, err = f.Write(target)
+	if err == nil { // the temp file is created 0600: give it the mode of the file it replaces
+		if fi, e := os.Stat(path); e == nil {
+			err = f.Chmod(fi.Mode().Perm())
+		}
+	}
 	f.Close()
 	if err != nil {
+		os.Remove(tmpfile)
 		return
 	}
-	err = os.Remove(path)
-	if err != nil {
-		return
-	}
+	// rename over the target: removing it first left a window without the file
 	return os.Rename(tmpfile, path)
 }
 
